@@ -15,10 +15,12 @@ from datetime import timedelta
 
 d3_time = {}
 
-milli2dt = lambda x: datetime.fromtimestamp(x / 1000.0)
-dt2milli = lambda x: x.timestamp() * 1000.0
+# Timezones are ignored: naive datetimes are converted to and from
+# milliseconds as if they were UTC, independent of the local time zone
+EPOCH = datetime(1970, 1, 1)
+milli2dt = lambda x: EPOCH + timedelta(milliseconds=x)
+dt2milli = lambda x: (x - EPOCH).total_seconds() * 1000.0
 
-# Timezones are ignored
 getTimezoneOffset = lambda x: 0
 daysThisMonth = lambda x: (
     x.replace(month=x.month % 12 + 1, day=1) - timedelta(days=1)
@@ -148,7 +150,7 @@ def d3_time_week_local(date):
     i = 7
     ndate = d3_time["day"](date)
     diff = ((date.isoweekday() % 7) + i) % 7
-    ndate = datetime.fromtimestamp(ndate.timestamp() - diff * 24 * 3600)
+    ndate = ndate - timedelta(days=diff)
     return ndate
 
 
@@ -163,9 +165,7 @@ def d3_time_week_number(date):
 
 d3_time["week"] = d3_time_interval(
     lambda date: d3_time_week_local(date),
-    lambda date, offset: datetime.fromtimestamp(
-        date.timestamp() + math.floor(offset) * 7 * 24 * 3600
-    ),
+    lambda date, offset: date + timedelta(days=7 * math.floor(offset)),
     lambda date: d3_time_week_number(date),
 )
 
